@@ -47,6 +47,15 @@ def main(argv):
         finally:
             sh(["git", "checkout", "--", "."], "/repo")
         own = hits.get(prop)
+        retired = False
+        try:
+            retired = json.load(open(f"{ROOT}/seeded/{s}/meta.json")).get("status") == "retired"
+        except Exception:
+            pass
+        if retired:
+            st = "SILENT (retired seed: property holds at HEAD)" if (own and own[0] == 0) else f"FALSE-ALARM on retired seed rc={own[0] if own else '-'}"
+            print(f"{s}: {st}")
+            continue
         caught_by = [t for t, (rc, v, o) in hits.items() if rc == 1]
         err_by = [t for t, (rc, v, o) in hits.items() if rc == 2]
         status = "CAUGHT" if (own and own[0] == 1) else ("caught-by-other" if caught_by else ("ANALYSIS-ERROR" if err_by else ("MISSED" if own else "no-check")))
